@@ -197,7 +197,9 @@ def u2_files(sc, root: str) -> dict:
              f"{sid}/other/fill.py": "def fill" + s + "() -> int:\n    ...\n",
              f"{sid}/sub/deep/{nm['m1']}.py": decl(1), f"{sid}/sub/{nm['m2']}.py": decl(2)}
     if sc.get("variant") == "sharedbase":    # both classes in one module, derived from one private class with a public method
-        files[f"{sid}/sub/deep/{nm['m1']}.py"] = (f"class _Base{s}:\n    def m_shared(self, from_base: int) -> int:\n        ...\n\n\n"
+        files[f"{sid}/sub/deep/{nm['m1']}.py"] = (f"class _Base{s}:\n    def m_shared(self, from_base: int) -> int:\n        ...\n\n"
+                                                  f"    class Options:\n        def __init__(self, n: int):\n            ...\n\n"
+                                                  f"    class _Registry:\n        def __init__(self, size: int):\n            ...\n\n\n"
                                                   f"class {nm[1]}(_Base{s}):\n    def m_d1(self) -> int:\n        ...\n\n\n"
                                                   f"class {nm[2]}(_Base{s}):\n    def m_shared(self, from_own: int) -> int:\n        ...\n\n    def m_d2(self) -> int:\n        ...\n")
         files[f"{sid}/sub/{nm['m2']}.py"] = "def fillb" + s + "() -> int:\n    ...\n"
@@ -255,7 +257,8 @@ def u2_observe(sc, stubs: Stubs, rootname: str, idx: dict | None = None) -> dict
                 if sc.get("variant") == "suffixalias":      # the specification calls the two declarations declone / decltwo
                     shown = {"tail": "declone", "big_tail": "decltwo"}.get(shown, shown)
                 occs[tgt].append({"home": [seg.replace(mark, "") for seg in file_home(f, rootname, sid)], "name": shown,
-                                  "members": [m.pyname for m in d.members if not m.pyname.startswith("_")]})
+                                  "members": [m.pyname for m in d.members if not m.pyname.startswith("_")],
+                                  "privmembers": [m.pyname.replace(mark, "") for m in d.members if m.pyname.startswith("_") and not m.pyname.startswith("__")]})
     jp = {1: "absent", 2: "absent"}
     if idx is not None:
         for t, path in ((1, ["sub", "deep", nm["m1"]]), (2, [*({"privtwin": ["_hid"], "privtwindeep": ["sub", "deep", "_hid"]}.get(sc.get("variant"), ["sub"])), nm["m2"]])):
